@@ -168,6 +168,7 @@ PieceChars(ps) == IF ps = <<>> THEN <<>> ELSE
 KeyChars(k) == CASE k = "a" -> <<"a">> [] k = "b" -> <<"b">> [] k = "c" -> <<"c">> [] k = "k" -> <<"k">>
                  [] k = "x" -> <<"x">> [] k = "y" -> <<"y">> [] k = "n" -> <<"n">> [] k = "v" -> <<"v">>
                  [] k = "layout" -> <<"l","a","y","o","u","t">> [] k = "yield" -> <<"y","i","e","l","d">>
+                 [] k = "capitalize" -> <<"c","a","p","i","t","a","l","i","z","e">>
                  [] OTHER -> <<"?", k>>
 
 \* a block's result as the value of the expression that owns the block
@@ -398,7 +399,7 @@ BindMap(m, keys, st) ==
   LET k == CHOOSE x \in keys : TRUE IN BindMap(m, keys \ {k}, SetTop(st, k, m[k]))
 
 \* Go helpers with a specified meaning.  The harness registers real Go functions with exactly
-\* these meanings (p, fail, id, blk, blks, blkown are test helpers; the others are plush built-ins).
+\* these meanings (p, fail, id, blk, blks, blkown, blktry are test helpers; the others are plush built-ins).
 CallGo(name, e, st) ==
   LET a == EvalSeq(e.args, 1, [k |-> "ok", vs |-> <<>>, r |-> Ok(Nil, st)]) IN
   IF a.k # "ok" THEN NoUnk(a.r) ELSE
@@ -444,6 +445,10 @@ CallGo(name, e, st) ==
          IF n # 1 \/ a.vs[1].t # "map" \/ e.blk = NoBlock THEN Unspec(s1)
          ELSE LET r == RunBlockAsHTML(e.blk, BindMap(a.vs[1].m, DOMAIN a.vs[1].m, Push(s1)), FALSE, TRUE) IN
               [r EXCEPT !.st = Pop(r.st)]
+    [] name = "blktry" ->            \* ... and renders a placeholder when its block fails (the caller's scope is current again)
+         IF n # 1 \/ a.vs[1].t # "map" \/ e.blk = NoBlock THEN Unspec(s1)
+         ELSE LET r == RunBlockAsHTML(e.blk, BindMap(a.vs[1].m, DOMAIN a.vs[1].m, Push(s1)), FALSE, TRUE) IN
+              IF r.k = "err" THEN Ok(H(<<"E">>), Pop(r.st)) ELSE [r EXCEPT !.st = Pop(r.st)]
     [] name = "contentFor" ->        \* stores the block in the current scope; emits nothing
          IF n # 1 \/ a.vs[1].t # "str" \/ e.blk = NoBlock THEN Unspec(s1)
          ELSE Ok(Nil, SetTop(s1, CForKey(a.vs[1].s), [t |-> "cfor", body |-> e.blk, d |-> Depth(s1)]))
